@@ -1,5 +1,6 @@
 // C16: random well-typed straight-line programs over the public module API, checked against an exact
-// interpreter over Z[X]/(X^N+1) with 128-bit coefficients (independent of the Lean model and of the library).
+// interpreter over Z[X]/(X^N+1) with 128-bit coefficients (independent of the Lean model and of the library);
+// plus programs of the Lean program language `Spq.Prog.OpD` that are ALSO run by the model driver (family `pg`).
 #include <cstdarg>
 #include "hcommon.h"
 
@@ -369,6 +370,253 @@ static std::string verify(Ctx& c) {
   return "ok";
 }
 
+// ------------------------------------------------------------------------------------------------------
+// Model-tied programs: programs of the language `Spq.Prog.OpD` (one int64 heap with variables (off, size, stride),
+// VEC_ZNX_DFT / SVP_PPOL / VMP_PMAT objects by id) are run on the real library AND sent to the Lean driver (family
+// `pg`), which runs `Prog.cstepD` with the binary64 module `Cfg.parts`; compared: the final heap (every cell, padding
+// included) and every written VEC_ZNX_DFT object, bit for bit.  The verdict is the exact 128-bit interpreter's.
+extern "C" {
+#include "spqlios/reim/reim_fft.h"
+#include "spqlios/reim/reim_fft_internal.h"
+#include "spqlios/reim/reim_fft_private.h"
+void reim_from_znx64_bnd50_fma(const REIM_FROM_ZNX64_PRECOMP* precomp, void* r, const int64_t* x);
+void reim_to_znx64_avx2_bnd63_fma(const REIM_TO_ZNX64_PRECOMP* precomp, int64_t* r, const void* x);
+void reim_to_znx64_avx2_bnd50_fma(const REIM_TO_ZNX64_PRECOMP* precomp, int64_t* r, const void* x);
+}
+static int pg_ilog2(size_t m) { int k = 0; while (((size_t)1 << k) < m) k++; return k; }
+static size_t pg_bfs_len(size_t m) {
+  size_t n = 0, mm = m;
+  if (pg_ilog2(m) & 1) { n += 2; mm /= 2; }
+  while (mm > 16) { n += (m / mm) * 4; mm /= 4; }
+  return n + m;
+}
+static size_t pg_rec_len(size_t m) { return m <= 2048 ? pg_bfs_len(m) : 2 + 2 * pg_rec_len(m / 2); }
+static size_t pg_table_len(size_t m) { return m == 1 ? 0 : m <= 16 ? m : pg_rec_len(m); }
+static void pg_cfg(FILE* f, MODULE* mod) {
+  const uint64_t m = mod->m;
+  auto* pf = mod->mod.fft64.p_fft;
+  auto* pi = mod->mod.fft64.p_ifft;
+  int fftFma = (void*)pf->function == (void*)reim_fft_avx2_fma;
+  int ifftFma = (void*)pi->function == (void*)reim_ifft_avx2_fma;
+  int fromB = (void*)mod->mod.fft64.p_conv->function == (void*)reim_from_znx64_bnd50_fma;
+  void* tf = (void*)mod->mod.fft64.p_reim_to_znx->function;
+  int toV = tf == (void*)reim_to_znx64_avx2_bnd63_fma ? 2 : (tf == (void*)reim_to_znx64_avx2_bnd50_fma ? 1 : 0);
+  int mulFma = (void*)mod->mod.fft64.mul_fft->function == (void*)reim_fftvec_mul_fma;
+  int addmulFma = (void*)mod->mod.fft64.p_addmul->function == (void*)reim_fftvec_addmul_fma;
+  int vmpAvx = (void*)mod->func.vmp_apply_dft_to_dft == (void*)fft64_vmp_apply_dft_to_dft_avx;
+  fprintf(f, "pg %" PRIu64 " %d %d %d %d %d %d %d | ", mod->nn, fftFma, ifftFma, fromB, toV, mulFma, addmulFma, vmpAvx);
+  put_f64bits(f, pf->powomegas, pg_table_len(m));
+  fprintf(f, " | ");
+  put_f64bits(f, pi->powomegas, pg_table_len(m));
+}
+
+struct HVar { uint64_t off, size, sl; PVec val; };
+struct HD { uint64_t size; std::vector<double> d; PVec val; bool written = false; };
+struct HM { uint64_t nrows, ncols; std::vector<double> d; std::vector<Poly> val; bool written = false; };
+struct HS { std::vector<double> d; Poly val; bool written = false; };
+
+static void model_program(Out& out, Rng& rng, int thorough) {
+  const int lg = 1 + (int)rng.below(thorough ? 8 : 6);
+  const uint64_t n = (uint64_t)1 << lg;
+  MODULE* mod = get_module(n, 0, (int)rng.below(2));
+  // layout: 3..5 general variables (random stride), one matrix source (stride n, nrows*ncols limbs), one big target
+  std::vector<HVar> vars;
+  uint64_t off = rng.below(2);
+  auto add_var = [&](uint64_t size, uint64_t sl) { HVar v; v.off = off; v.size = size; v.sl = sl; v.val.assign(size, pzero(n)); vars.push_back(v); off += size * sl + rng.below(2); };
+  int ngen = 3 + (int)rng.below(3);
+  for (int i = 0; i < ngen; i++) add_var(1 + rng.below(3), n + (rng.below(3) == 0 ? rng.below(3) : 0));
+  const uint64_t mr = 1 + rng.below(3), mc = 1 + rng.below(3);
+  const int matv = (int)vars.size();
+  add_var(mr * mc, n);
+  add_var(1 + rng.below(3), n);  // a stride-n variable is always available as an idft target
+  const uint64_t hsz = off + rng.below(2);
+  std::vector<int64_t> H(hsz + 1, 0);
+  for (uint64_t i = 0; i < hsz; i++) H[i] = rng.sbits(5);  // padding cells hold data too: they must survive
+  for (size_t v = 0; v < vars.size(); v++) {
+    int bits = (int)v == matv ? 5 : 3 + (int)rng.below(9);
+    for (uint64_t l = 0; l < vars[v].size; l++)
+      for (uint64_t j = 0; j < n; j++) { int64_t x = rng.sbits(bits); H[vars[v].off + l * vars[v].sl + j] = x; vars[v].val[l][j] = x; }
+  }
+  std::vector<int64_t> H0(H.begin(), H.begin() + hsz);
+  std::vector<HD> D(4);
+  for (auto& d : D) { d.size = 1 + rng.below(3); d.d.assign(d.size * n + 1, 1e300); d.val.assign(d.size, pzero(n)); }
+  std::vector<HM> M(2);
+  M[0].nrows = mr; M[0].ncols = mc;
+  M[1].nrows = mr; M[1].ncols = mc;
+  for (auto& m : M) m.d.assign(m.nrows * m.ncols * n + 1, 0.0);
+  std::vector<HS> S(2);
+  for (auto& s : S) s.d.assign(n + 1, 0.0);
+  std::string prog;
+  std::vector<uint8_t> tmp;
+  auto vs = [&](const HVar& v) { char b[80]; snprintf(b, sizeof b, "%lu %lu %lu", (unsigned long)v.off, (unsigned long)v.size, (unsigned long)v.sl); return std::string(b); };
+  auto emit = [&](const char* fmt, ...) { char b[400]; va_list ap; va_start(ap, fmt); vsnprintf(b, sizeof b, fmt, ap); va_end(ap); prog += b; prog += " ; "; };
+  auto P = [&](const HVar& v) { return H.data() + v.off; };
+  auto lz = [&](const HVar& v, uint64_t i) { return i < v.size ? v.val[i] : pzero(n); };
+  int len = 6 + (int)rng.below(thorough ? 19 : 9), done = 0, tries = 0;
+  // the DFT-space calls are weighted up; most programs start by preparing a matrix, a scalar and a raw transform
+  static const int WOPS[] = {0, 1, 2, 3, 4, 5, 5, 7, 8, 8, 9, 10, 10, 11, 11, 12, 13, 13, 14, 15};
+  std::vector<int> forced;
+  if (rng.below(4)) forced.push_back(9);
+  if (rng.below(4)) forced.push_back(7);
+  if (rng.below(4)) forced.push_back(5);
+  while (done < len && tries < 30 * len) {
+    tries++;
+    int op = WOPS[rng.below(sizeof WOPS / sizeof WOPS[0])];
+    if (!forced.empty()) { op = forced.back(); forced.pop_back(); }
+    HVar& A = vars[rng.below(vars.size())];
+    HVar& B = vars[rng.below(vars.size())];
+    HVar& R = vars[rng.below(vars.size())];
+    if (op <= 1) {  // add / sub, destination any variable (possibly a source)
+      PVec ex(R.size);
+      for (uint64_t i = 0; i < R.size; i++) { Poly x = lz(A, i), y = lz(B, i); ex[i] = pzero(n); for (uint64_t j = 0; j < n; j++) ex[i][j] = op == 0 ? x[j] + y[j] : x[j] - y[j]; }
+      if (!fits(ex, 50)) continue;
+      (op == 0 ? vec_znx_add : vec_znx_sub)(mod, P(R), R.size, R.sl, P(A), A.size, A.sl, P(B), B.size, B.sl);
+      R.val = ex;
+      emit("%s %s %s %s", op == 0 ? "add" : "sub", vs(R).c_str(), vs(A).c_str(), vs(B).c_str());
+    } else if (op == 2) {  // negate / copy
+      bool neg = rng.below(2);
+      PVec ex(R.size);
+      for (uint64_t i = 0; i < R.size; i++) { ex[i] = lz(A, i); if (neg) for (auto& x : ex[i]) x = -x; }
+      (neg ? vec_znx_negate : vec_znx_copy)(mod, P(R), R.size, R.sl, P(A), A.size, A.sl);
+      R.val = ex;
+      emit("%s %s %s", neg ? "neg" : "copy", vs(R).c_str(), vs(A).c_str());
+    } else if (op == 3) {  // rotate / automorphism
+      bool aut = rng.below(2);
+      int64_t p = rng.sbits(8);
+      if (aut) p |= 1;
+      PVec ex(R.size);
+      for (uint64_t i = 0; i < R.size; i++) ex[i] = i < A.size ? (aut ? paut(A.val[i], p) : prot(A.val[i], p)) : pzero(n);
+      (aut ? vec_znx_automorphism : vec_znx_rotate)(mod, p, P(R), R.size, R.sl, P(A), A.size, A.sl);
+      R.val = ex;
+      emit("%s %ld %s %s", aut ? "aut" : "rot", (long)p, vs(R).c_str(), vs(A).c_str());
+    } else if (op == 4) {  // normalize
+      uint64_t k = 4 + rng.below(12);
+      PVec ex = pnorm(A.val, k, R.size, n);
+      tmp.assign(vec_znx_normalize_base2k_tmp_bytes(mod) + 8, 0xCD);
+      vec_znx_normalize_base2k(mod, k, P(R), R.size, R.sl, P(A), A.size, A.sl, tmp.data());
+      R.val = ex;
+      emit("norm %lu %s %s", (unsigned long)k, vs(R).c_str(), vs(A).c_str());
+    } else if (op == 5 || op == 6) {  // dft
+      int di = (int)rng.below(D.size());
+      if (!fits(A.val, 49)) continue;
+      vec_znx_dft(mod, (VEC_ZNX_DFT*)D[di].d.data(), D[di].size, P(A), A.size, A.sl);
+      for (uint64_t i = 0; i < D[di].size; i++) D[di].val[i] = lz(A, i);
+      D[di].written = true;
+      emit("dft %d %lu %s", di, (unsigned long)D[di].size, vs(A).c_str());
+    } else if (op == 7) {  // svp_prepare (limb 0)
+      int si = (int)rng.below(2);
+      if (!fits(A.val, 49)) continue;
+      svp_prepare(mod, (SVP_PPOL*)S[si].d.data(), P(A));
+      S[si].val = A.val[0];
+      S[si].written = true;
+      emit("svpp %d %s", si, vs(A).c_str());
+    } else if (op == 8) {  // svp_apply_dft
+      int si = (int)rng.below(2), di = (int)rng.below(D.size());
+      if (!S[si].written) continue;
+      PVec ex(D[di].size);
+      long double err = 0;
+      for (uint64_t i = 0; i < D[di].size; i++) { ex[i] = i < A.size ? pmul(S[si].val, A.val[i]) : pzero(n); if (i < A.size) err = fmaxl(err, perr(S[si].val, A.val[i])); }
+      if (err >= 0.25L || !fits(ex, 49) || !fits(A.val, 49)) continue;
+      svp_apply_dft(mod, (VEC_ZNX_DFT*)D[di].d.data(), D[di].size, (SVP_PPOL*)S[si].d.data(), P(A), A.size, A.sl);
+      D[di].val = ex;
+      D[di].written = true;
+      emit("svp %d %lu %d %s", di, (unsigned long)D[di].size, si, vs(A).c_str());
+    } else if (op == 9) {  // vmp_prepare_contiguous from the matrix variable
+      int mi = (int)rng.below(2);
+      HVar& V = vars[matv];
+      if (!fits(V.val, 20)) continue;
+      tmp.assign(vmp_prepare_contiguous_tmp_bytes(mod, mr, mc) + 8, 0xEE);
+      vmp_prepare_contiguous(mod, (VMP_PMAT*)M[mi].d.data(), P(V), mr, mc, tmp.data());
+      M[mi].val = V.val;
+      M[mi].written = true;
+      emit("vmpp %d %lu %lu %s", mi, (unsigned long)mr, (unsigned long)mc, vs(V).c_str());
+    } else if (op == 10 || op == 11 || op == 12) {  // vmp_apply_dft (10) / vmp_apply_dft_to_dft (11, 12)
+      int mi = (int)rng.below(2), di = (int)rng.below(D.size()), ai = (int)rng.below(D.size());
+      if (!M[mi].written) mi ^= 1;
+      if (!M[mi].written) continue;
+      const bool dd = op != 10;
+      for (int t = 0; t < 4 && dd && (!D[ai].written || ai == di); t++) ai = (int)rng.below(D.size());
+      if (dd && (!D[ai].written || ai == di)) continue;
+      const PVec& av = dd ? D[ai].val : A.val;
+      const uint64_t asz = dd ? D[ai].size : A.size;
+      uint64_t rows = mr < asz ? mr : asz, rsz = D[di].size;
+      PVec ex(rsz, pzero(n));
+      long double err = 0;
+      for (uint64_t j = 0; j < rsz && j < mc; j++)
+        for (uint64_t i = 0; i < rows; i++) {
+          Poly t = pmul(av[i], M[mi].val[i * mc + j]);
+          err += perr(av[i], M[mi].val[i * mc + j]);
+          for (uint64_t k = 0; k < n; k++) ex[j][k] += t[k];
+        }
+      if (err >= 0.25L || !fits(ex, 49) || !fits(av, 46)) continue;
+      if (!dd) {
+        tmp.assign(vmp_apply_dft_tmp_bytes(mod, rsz, asz, mr, mc) + 8, 0xEE);
+        vmp_apply_dft(mod, (VEC_ZNX_DFT*)D[di].d.data(), rsz, P(A), A.size, A.sl, (VMP_PMAT*)M[mi].d.data(), mr, mc, tmp.data());
+        emit("vmp %d %lu %s %d %lu %lu", di, (unsigned long)rsz, vs(A).c_str(), mi, (unsigned long)mr, (unsigned long)mc);
+      } else {
+        tmp.assign(vmp_apply_dft_to_dft_tmp_bytes(mod, rsz, asz, mr, mc) + 8, 0xEE);
+        vmp_apply_dft_to_dft(mod, (VEC_ZNX_DFT*)D[di].d.data(), rsz, (VEC_ZNX_DFT*)D[ai].d.data(), asz, (VMP_PMAT*)M[mi].d.data(), mr, mc, tmp.data());
+        emit("vdd %d %lu %d %lu %d %lu %lu", di, (unsigned long)rsz, ai, (unsigned long)asz, mi, (unsigned long)mr, (unsigned long)mc);
+        out.count("pg_vmp_dft_to_dft");
+      }
+      D[di].val = ex;
+      D[di].written = true;
+    } else if (op == 13 || op == 14) {  // idft into a stride-n variable (a VEC_ZNX_BIG living in the heap)
+      int ai = (int)rng.below(D.size());
+      for (int t = 0; t < 4 && !D[ai].written; t++) ai = (int)rng.below(D.size());
+      std::vector<int> bigs;
+      for (size_t v = 0; v < vars.size(); v++) if (vars[v].sl == n) bigs.push_back((int)v);
+      HVar& R = vars[bigs[rng.below(bigs.size())]];
+      if (!D[ai].written) continue;
+      tmp.assign(vec_znx_idft_tmp_bytes(mod) + 8, 0xAB);
+      vec_znx_idft(mod, (VEC_ZNX_BIG*)P(R), R.size, (VEC_ZNX_DFT*)D[ai].d.data(), D[ai].size, tmp.data());
+      for (uint64_t i = 0; i < R.size; i++) R.val[i] = i < D[ai].size ? D[ai].val[i] : pzero(n);
+      emit("idft %s %d %lu", vs(R).c_str(), ai, (unsigned long)D[ai].size);
+    } else {  // small single product of limbs 0 into a one-limb variable
+      if (R.size != 1 || &R == &A || &R == &B) continue;
+      Poly ex = pmul(A.val[0], B.val[0]);
+      if (perr(A.val[0], B.val[0]) >= 0.25L || pmax(ex) >= ldexpl(1.0L, 49)) continue;
+      tmp.assign(znx_small_single_product_tmp_bytes(mod) + 8, 0x5C);
+      znx_small_single_product(mod, P(R), P(A), P(B), tmp.data());
+      R.val[0] = ex;
+      emit("small %s %s %s", vs(R).c_str(), vs(A).c_str(), vs(B).c_str());
+    }
+    done++;
+  }
+  // independent verdict: exact values of every variable, and of every written DFT object through a copy
+  std::string verdict = "ok";
+  for (size_t v = 0; v < vars.size() && verdict == "ok"; v++)
+    for (uint64_t i = 0; i < vars[v].size; i++)
+      for (uint64_t j = 0; j < n; j++)
+        if ((i128)H[vars[v].off + i * vars[v].sl + j] != vars[v].val[i][j]) { verdict = "FAIL C16 model-tied program: variable " + std::to_string(v) + " differs from the exact interpreter; program: " + prog; i = vars[v].size; break; }
+  for (size_t d = 0; d < D.size() && verdict == "ok"; d++) {
+    if (!D[d].written) continue;
+    std::vector<double> cp(D[d].d);
+    std::vector<int64_t> big(D[d].size * n + 1);
+    vec_znx_idft_tmp_a(mod, (VEC_ZNX_BIG*)big.data(), D[d].size, (VEC_ZNX_DFT*)cp.data(), D[d].size);
+    for (uint64_t i = 0; i < D[d].size && verdict == "ok"; i++)
+      for (uint64_t j = 0; j < n; j++)
+        if ((i128)big[i * n + j] != D[d].val[i][j]) { verdict = "FAIL C16 model-tied program: DFT object " + std::to_string(d) + " does not inverse-transform to the exact value; program: " + prog; break; }
+  }
+  pg_cfg(out.ops, mod);
+  fprintf(out.ops, " | ");
+  put_i64s(out.ops, H0.data(), hsz);
+  fprintf(out.ops, " | %s | ", prog.c_str());
+  fprintf(out.real, "1 | ");
+  put_i64s(out.real, H.data(), hsz);
+  bool first = true;
+  for (size_t d = 0; d < D.size(); d++)
+    if (D[d].written) {
+      fprintf(out.ops, first ? "%zu %lu" : " %zu %lu", d, (unsigned long)D[d].size);
+      first = false;
+      fprintf(out.real, " | ");
+      put_f64bits(out.real, D[d].d.data(), D[d].size * n);
+    }
+  out.endcase(verdict);
+  out.count("pg_programs");
+  out.count("pg_ops", done);
+}
+
 STREAM(md_prog) {
   int nprog = thorough ? 600 : 120;
   int maxlen = thorough ? 40 : 20;
@@ -405,4 +653,7 @@ STREAM(md_prog) {
   next:
     out.count("programs");
   }
+  // programs of the Lean program language, run by the model driver as well (bit-exact tie)
+  int npg = thorough ? 300 : 60;
+  for (int i = 0; i < npg; i++) model_program(out, rng, thorough);
 }
